@@ -92,6 +92,11 @@ func c09Files() Files {
 	f["h13_page.vuego"] = `<div :title="canary" class="box" v-html="canary"></div><p class="a" id="p3" v-text="canary"></p>` +
 		`<span style="color:red" v-show="show" v-text="title" class="k" data-a="1"></span><b v-once class="o" id="b3">{{ canary }}</b>` +
 		`<i a="1" b="2" c="3" d="4" e="5" v-html="canary"></i><u a="1" b="2" c="3" d="4" e="5" f="6" v-text="canary"></u><em :class="{on: show}" class="s" style="top:0" :style="{color: color}" v-show="hide">{{ canary }}</em>`
+	// a page rendered through a layout chain that itself holds v-once elements, a shorthand
+	// component tag and slot content for the layout (the layout step reads the page a second time)
+	f["h15_page.vuego"] = "---\nlayout: h15_lay\n---\n" + `<template #side><b v-once>{{ canary }}</b></template><div v-once>{{ canary }}</div><ul><li v-for="it in items" v-once>{{ it }}</li></ul><h-badge :c="canary"></h-badge><p>{{ title }}</p>`
+	f["layouts/h15_lay.vuego"] = `<main><aside><slot name="side">none</slot></aside><section v-html="content"></section></main>`
+	f["components/HBadge.vuego"] = `<span class="badge">{{ c }}</span>`
 	f["h4_c.vuego"] = `<p v-if="n > 13">{{ user.name }}</p><i>{{ m.k3 }} {{ objs[0].name }}</i>`
 	return f
 }
@@ -259,13 +264,27 @@ func c09Build(driver string, threads int) [][]c09Call {
 			i := i
 			out[i] = []c09Call{mk("attrs", func(b *bytes.Buffer) error { return t.Load("h13_page.vuego").Fill(tdata(i)).Render(bg, b) })}
 		}
+	case "H15-layout-page-with-v-once-and-shorthand":
+		t := vuego.NewFS(files.FS(), vuego.WithComponents())
+		for i := range out {
+			i := i
+			out[i] = []c09Call{mk("laypage", func(b *bytes.Buffer) error { return t.Load("h15_page.vuego").Fill(tdata(i)).Render(bg, b) })}
+		}
+	case "H16-layout-page-warm":
+		t := vuego.NewFS(files.FS(), vuego.WithComponents())
+		var warm bytes.Buffer
+		_ = t.Load("h15_page.vuego").Fill(c09Data()).Render(bg, &warm)
+		for i := range out {
+			i := i
+			out[i] = []c09Call{mk("laypage", func(b *bytes.Buffer) error { return t.New().Fill(tdata(i)).RenderFile(bg, b, "h15_page.vuego") })}
+		}
 	default:
 		panic("unknown driver " + driver)
 	}
 	return out
 }
 
-var c09Drivers = []string{"H1-cold-cache-same-file", "H2-shared-caller-map", "H3-v-once-warm", "H4-unseen-paths-and-expressions", "H4b-path-cache-at-limit", "H5-include-slots-layout-filters", "H6-files-edited-underneath", "H7-renderstring-on-new", "H8-funcs-and-errors", "H9-components-with-v-once-and-wrappers", "H10-same-page-different-data", "H11-front-matter-page-with-template-variables-vue", "H12-front-matter-page-with-template-variables-load", "H13-attribute-slices-with-spare-capacity-vue", "H14-attribute-slices-with-spare-capacity-load"}
+var c09Drivers = []string{"H1-cold-cache-same-file", "H2-shared-caller-map", "H3-v-once-warm", "H4-unseen-paths-and-expressions", "H4b-path-cache-at-limit", "H5-include-slots-layout-filters", "H6-files-edited-underneath", "H7-renderstring-on-new", "H8-funcs-and-errors", "H9-components-with-v-once-and-wrappers", "H10-same-page-different-data", "H11-front-matter-page-with-template-variables-vue", "H12-front-matter-page-with-template-variables-load", "H13-attribute-slices-with-spare-capacity-vue", "H14-attribute-slices-with-spare-capacity-load", "H15-layout-page-with-v-once-and-shorthand", "H16-layout-page-warm"}
 
 // c09Reset puts every piece of process-global state the engine has into its initial state.
 func c09Reset(driver string) {
